@@ -1029,11 +1029,13 @@ func c10AllValues(int, string) []int {
 	return vs
 }
 
-func c10Streams(c *ctx) []*c10Stream {
+// c10Streams builds one round of streams; scale multiplies the payload sizes, tag is appended to the names.
+func c10Streams(c *ctx, scale int, tag string) []*c10Stream {
 	r := c.res
 	rnd := c.rnd
 	var out []*c10Stream
 	add := func(name, layer string, raw []byte, err error) *c10Stream {
+		name += tag
 		if err != nil {
 			r.note("stream %s not built: %v", name, err)
 			r.fail("c10.writer."+name, "the library writer failed while building the stream: "+err.Error(), c10Input{Kind: "build", Name: name})
@@ -1049,10 +1051,6 @@ func c10Streams(c *ctx) []*c10Stream {
 		r.hist(fmt.Sprintf("stream.%s.members=%d", layer, len(st.members)))
 		r.sample(map[string]interface{}{"stream": name, "layer": layer, "bytes": len(raw), "members": len(st.members), "data_bytes": len(st.data), "hex": hexs(raw)})
 		return st
-	}
-	scale := 1
-	if c.thorough() {
-		scale = 6
 	}
 	// S1: one data block + marker
 	raw, err := c10WriteBgzf(gzip.DefaultCompression, [][]byte{c10Text(rnd, 40*scale)})
@@ -1105,7 +1103,13 @@ func checkC10(c *ctx) {
 	// would run every few cases.  A ballast keeps the GC period long.
 	ballast := make([]byte, 512<<20)
 	defer runtime.KeepAlive(ballast)
-	streams := c10Streams(c)
+	streams := c10Streams(c, 1, "")
+	if c.thorough() {
+		// the quick streams with every value everywhere, then four rounds of larger ones
+		for i, scale := range []int{3, 8, 16, 30} {
+			streams = append(streams, c10Streams(c, scale, fmt.Sprintf("#%d", i+1))...)
+		}
+	}
 	vrnd := c.rnd.fork()
 	// sampled: the original value, boundary values, bit flips, 0x11 (BSIZE = 17), and random others
 	sampled := func(st *c10Stream, nOther int) func(pos int, role string) []int {
@@ -1136,25 +1140,26 @@ func checkC10(c *ctx) {
 	}
 	for _, st := range streams {
 		// quick: every value at every position of the small streams; the re-blocked BAM stream (7 members)
-		// gets every truncation and sampled values.  thorough: streams are 6 times larger; every value on
-		// header/trailer bytes, sampled values on deflate bytes.
+		// gets every truncation and sampled values.  thorough: the same streams with every value at every
+		// position of all of them, then four rounds of larger streams ("#n"): every value on header/trailer
+		// bytes, 32 sampled values on deflate bytes.
 		vals := c10AllValues
 		switch {
-		case c.thorough():
-			smp := sampled(st, 16)
+		case strings.Contains(st.name, "#"):
+			smp := sampled(st, 24)
 			vals = func(pos int, role string) []int {
 				if !strings.HasSuffix(role, "deflate") {
 					return c10AllValues(pos, role)
 				}
 				return smp(pos, role)
 			}
-		case st.name == "bam-reblocked":
+		case st.name == "bam-reblocked" && !c.thorough():
 			vals = sampled(st, 4)
 		}
 		t0 := time.Now()
 		c10Enumerate(c, st, vals)
 		r.note("%s (%s): %d bytes, %d members, %d data bytes: enumerated in %.1fs", st.name, st.layer, len(st.raw), len(st.members), len(st.data), time.Since(t0).Seconds())
-		if st.layer == "bam" && (c.thorough() || st.name == "bam-reblocked") {
+		if st.layer == "bam" && (c.thorough() || strings.HasPrefix(st.name, "bam-reblocked")) {
 			// the same bytes through bgzf.Reader alone
 			t0 = time.Now()
 			bg := *st
@@ -1168,11 +1173,13 @@ func checkC10(c *ctx) {
 	}
 }
 
-// c10BigBam: a BAM file with full-size (64 KiB) blocks as bam.Writer produces them; truncations at
-// every member boundary and around it (the record/block boundary interplay at natural block ends).
+// c10BigBam: a BAM file with full-size (64 KiB) blocks as bam.Writer produces them, records spanning
+// block boundaries: truncations at and around every member boundary, and substitutions of every
+// header/trailer byte of every member by sampled values.  Oracle only (no model lines: a line would
+// carry the whole stream).
 func c10BigBam(c *ctx) {
 	r := c.res
-	raw, err := c10WriteBam(c.rnd, 2, 1500, 60)
+	raw, err := c10WriteBam(c.rnd, 2, 4000, 60)
 	if err != nil {
 		r.note("big BAM not built: %v", err)
 		return
@@ -1182,10 +1189,10 @@ func c10BigBam(c *ctx) {
 		r.note("big BAM not usable: %v", err)
 		return
 	}
-	hexRaw := "" // too large for replay files: replays carry the generator name only
+	hexRaw := hexs(raw)
 	var cuts []int
 	for b := range st.bounds {
-		for _, dlt := range []int{-1, 0, 1, 18, 17, 19} {
+		for _, dlt := range []int{-1, 0, 1, 17, 18, 19, 28} {
 			if k := b + dlt; k >= 0 && k < len(raw) {
 				cuts = append(cuts, k)
 			}
@@ -1193,8 +1200,12 @@ func c10BigBam(c *ctx) {
 	}
 	sort.Ints(cuts)
 	for _, k := range cuts {
-		for _, rd := range c10Rds {
-			o := c10RunBam(raw[:k], rd)
+		var first c10Obs
+		for i, rd := range c10Rds {
+			o := c10RunCase(st, raw[:k], rd, 4096, i, &first)
+			if o.skip {
+				continue
+			}
 			r.eval(fmt.Sprintf("bam-big/t/%d/%d", k, rd), true)
 			r.hist("trunc.bam-big")
 			if sig, what := c10JudgeTrunc(st, k, rd, o); sig != "" {
@@ -1202,7 +1213,47 @@ func c10BigBam(c *ctx) {
 			}
 		}
 	}
-	r.note("bam-big: %d bytes, %d members, %d cuts at and around member boundaries", len(raw), len(st.members), len(cuts))
+	nsub := 0
+	mut := append([]byte{}, raw...)
+	for _, m := range st.members {
+		for off := 0; off < m.size; off++ {
+			if off >= 18 && off < m.size-8 {
+				continue
+			}
+			pos := m.start + off
+			role := c10Role(st.members, pos)
+			o0 := int(raw[pos])
+			vs := map[int]bool{0: true, 255: true, 0x11: true, o0 ^ 1: true, o0 ^ 0x80: true, (o0 + 1) & 255: true}
+			for len(vs) < 12 {
+				vs[c.rnd.intn(256)] = true
+			}
+			delete(vs, o0)
+			var vals []int
+			for v := range vs {
+				vals = append(vals, v)
+			}
+			sort.Ints(vals)
+			for _, v := range vals {
+				mut[pos] = byte(v)
+				var first c10Obs
+				for i, rd := range c10Rds {
+					o := c10RunCase(st, mut, rd, 4096, i, &first)
+					if o.skip {
+						continue
+					}
+					nsub++
+					r.eval(fmt.Sprintf("bam-big/s/%d/%d/%d", pos, v, rd), true)
+					r.hist("subst.bam-big." + role)
+					if sig, what := c10JudgeSubst(st, pos, v, rd, role, o); sig != "" {
+						r.fail(sig, fmt.Sprintf("bam-big rd=%d: %s", rd, what), c10Input{Kind: "subst", Layer: "bam", Name: "bam-big", Stream: hexRaw, Pos: pos, Val: v, Role: role, Rd: rd})
+					}
+				}
+			}
+			mut[pos] = raw[pos]
+		}
+	}
+	r.note("bam-big: %d bytes, %d members, %d records: %d cuts at and around member boundaries, %d substitutions of header/trailer bytes (oracle only)",
+		len(raw), len(st.members), len(st.recs)-1, len(cuts), nsub)
 }
 
 func c10Replay(c *ctx) {
